@@ -84,7 +84,11 @@ def load_contracts(paths):
                         cur.unit = d[5:].strip()
                 elif d.startswith('inst '):
                     par, tys = d[5:].split('=', 1)
-                    cur.inst = (par.strip(), [t.strip() for t in tys.split('|')])
+                    if cur.inst is None:
+                        cur.inst = (par.strip(), [t.strip() for t in tys.split('|')])
+                    else:
+                        # further generic parameters: one type each, applied to every variant
+                        cur.inst_extra = getattr(cur, 'inst_extra', []) + [(par.strip(), tys.strip())]
                 elif d.startswith('opt '):
                     k, _, v = d[4:].partition('=')
                     cur.opts[k.strip()] = v.strip() or '1'
@@ -168,6 +172,9 @@ IDIOMS = [
     ('R6.clone_from', r'\b([A-Za-z_][A-Za-z0-9_]*(?:\.[A-Za-z_][A-Za-z0-9_]*)*)\.clone_from\(&([A-Za-z_][A-Za-z0-9_]*(?:\.[A-Za-z_][A-Za-z0-9_]*)*)\);', r'\1 = \2.clone();'),
     # R2: a tuple pattern in parameter position -> named parameter + let
     ('R2.tuple_param', r'fn (\w+)\(\((\w+), (\w+)\): \(([A-Za-z_][A-Za-z0-9_]*), ([A-Za-z_][A-Za-z0-9_]*)\)\) -> Self \{', r'fn \1(p__: (\4, \5)) -> Self { let (\2, \3) = p__;'),
+    # R6: clone-on-write wrapper -> owned copy (`Cow::Borrowed(x)` + `.to_mut()` is `x.clone()` + `&mut` up to allocation behaviour)
+    ('R6.cow_borrowed', r'stdlib::borrow::Cow::Borrowed\(([A-Za-z_][A-Za-z0-9_]*(?:\.[A-Za-z_][A-Za-z0-9_]*)*)\)', r'\1.clone()'),
+    ('R6.cow_to_mut', r'\b([A-Za-z_][A-Za-z0-9_]*)\.to_mut\(\)', r'&mut \1'),
     # R3 debug_assert_eq / _ne  (message dropped)
     ('R3.debug_assert_eq_carry', r'debug_assert_eq!\(carry, &0\);', r'debug_assert!(*carry == 0);'),
     ('R3.debug_assert_eq', r'debug_assert_eq!\(([^,;]+), ([^,;]+)\);', r'debug_assert!(\1 == \2);'),
@@ -767,7 +774,7 @@ def instantiate_generic(text, param, ty):
         new_gen = ('<' + ', '.join(keep) + '>') if keep else ''
         edits.append((code[g].start, code[j].end, new_gen))
     # where clause predicates on the parameter
-    for m in re.finditer(r'\bwhere\s+' + param + r'\s*:[^{;]*?(?=\{)', text):
+    for m in re.finditer(r'\bwhere\s+' + param + r'\s*:[^{;]*?(?=\{|\brequires\b|\bensures\b|\bdecreases\b|\brecommends\b)', text):
         edits.append((m.start(), m.end(), ''))
     edits.sort()
     out = []
@@ -779,7 +786,12 @@ def instantiate_generic(text, param, ty):
         out.append(r)
         pos = e_
     out.append(text[pos:])
+    before = text
     text = ''.join(out)
+    # instantiation must never swallow a contract clause (it once removed an `ensures` together with a where clause)
+    for kw in ('requires', 'ensures', 'invariant', 'decreases'):
+        if len(re.findall(r'\b%s\b' % kw, before)) != len(re.findall(r'\b%s\b' % kw, text)):
+            raise GenError('instantiation of %s dropped a `%s` clause' % (param, kw))
     toks = lex(text)
     return ''.join((ty if (t.kind == 'ident' and t.text == param) else t.text) for t in toks)
 
@@ -992,6 +1004,9 @@ def build(entries, verify_units, repo=None, extra_false_ensures=False, no_body_h
                 variants = [(instantiate_generic(merged, par, ty),
                              [re.sub(r'\b%s\b' % par, ty, h) for h in hoisted], '[%s=%s]' % (par, ty))
                             for ty in tys]
+            for par2, ty2 in getattr(e, 'inst_extra', []):
+                variants = [(instantiate_generic(t, par2, ty2), [re.sub(r'\b%s\b' % par2, ty2, h) for h in hs], vl)
+                            for t, hs, vl in variants]
             for text, hoist, vlabel in variants:
                 if L.bindings:
                     text = substitute(text, L.bindings)
